@@ -164,3 +164,16 @@ package object
 //@   modifies nothing
 //@   ensures inspect.float: result == fmtFloat(f.Value)
 //@   panics never
+
+//@ func (s *String) Next() (v Object, k Object, ok bool)
+//@   modifies s.offset
+//@   ensures @C02 @C16 next.string.more: old(s.offset) < runeCount(s.Value) ==> ok && isStr(v) && fresh(v) && sval(v) == strFromRune(runesOf(s.Value)[old(s.offset)])
+//@            && isInt(k) && fresh(k) && ival(k) == old(s.offset) && s.offset == old(s.offset) + 1
+//@   ensures @C02 @C16 next.string.done: old(s.offset) >= runeCount(s.Value) ==> !ok && v == nil && s.offset == old(s.offset)
+//@   ensures next.string.good: validObj(k) && (ok ==> validObj(v))
+//@   panics when s.offset < 0
+
+//@ func (h *Hash) Next() (v Object, k Object, ok bool)
+//@   modifies h.offset
+//@   ensures next.hash.good: validObj(k) && (ok ==> validObj(v))
+//@   panics maybe
